@@ -259,13 +259,19 @@ Fixpoint delete_segments (fuel : nat) (id : N) (w : list (N * segment))
 Definition bg_enabled (c : cfg) (s : db) : bool :=
   (c_max_wal_bytes c <? wal_size s) || (c_max_wal_files c <? next_wal s - earliest s).
 
+(* the first half of a flush: freeze (under the WAL lock), then batching, partition files and
+   compaction; the result is the table map with the in-memory catalogue updated, the merged-away
+   partitions' files still in place and recorded in t_dead *)
+Definition flush_mid (guard : bool) (c : cfg) (o : oracle) (s : db) : res (list (name * tstate)) :=
+  do l0 <- freeze_all (tabs s);
+  flush_tables guard c o (map fst l0) l0.
+
 Definition flush (guard : bool) (c : cfg) (o : oracle) (s : db) : res db :=
   (* under the WAL lock: record the unflushed range, freeze every table buffer, reset wal_size *)
   let lo := earliest s in
   let hi := next_wal s in
-  do l0 <- freeze_all (tabs s);
   (* batching, partition files, compaction (in-memory catalogue updated as they go) *)
-  do l1 <- flush_tables guard c o (map fst l0) l0;
+  do l1 <- flush_mid guard c o s;
   (* persist_metastore(hi): the catalogue file now holds the cursor and the current partitions *)
   do l2 <- map_tabs SNoTable (fun t => Some (publish_meta t)) l1;
   (* delete_orphaned_partitions, delete_wal_segments(lo..hi) *)
